@@ -21,6 +21,7 @@ import (
 	"sort"
 	"strconv"
 	"strings"
+	"time"
 
 	"github.com/piotrnar/gocoin/client/common"
 	"github.com/piotrnar/gocoin/client/network"
@@ -187,12 +188,7 @@ func (h *Harness) headerAccepted(hdr []byte) bool {
 	if _, ok := network.ReceivedBlocks[hash.BIdx()]; ok {
 		return false
 	}
-	for _, sp := range h.e.Spare {
-		if string(sp[:80]) == string(hdr[:80]) {
-			return true
-		}
-	}
-	return false
+	return h.e.fullOf(hdr) != nil
 }
 
 func (h *Harness) key(cs Case, s *stream) string {
@@ -304,7 +300,16 @@ func (h *Harness) deliver(cs Case, run bool) bool {
 	if run {
 		kind = "run:"
 	}
-	r.Eval(kind+cs.Cmd, s.name()+cs.Cmd+cs.Pre+cs.Pl+fmt.Sprint(len(cs.Seq)))
+	hist := ""
+	if cs.reconfigures() {
+		kind = "cfg-" + kind
+		for _, m := range cs.Seq {
+			if m.Cmd[0] == '@' {
+				hist += m.Cmd + m.Pl
+			}
+		}
+	}
+	r.Eval(kind+cs.Cmd, s.name()+cs.Cmd+cs.Pre+cs.Pl+fmt.Sprint(len(cs.Seq))+hist)
 	if !run || !h.rn.runnable(cs) {
 		r.Hit("src:" + strings.SplitN(cs.Note, ":", 2)[0])
 		if cs.has("nover") {
@@ -400,6 +405,17 @@ func (h *Harness) deliver(cs Case, run bool) bool {
 		}
 	} else {
 		r.Hit("real:ban=" + o.Ban)
+	}
+
+	// ---- 1a. a history in which the operator changed a switch the parsing layer depends on (or the clock
+	//          was put forward for a Tick): the model describes the handlers under the configuration the
+	//          harness starts with - the property itself has been evaluated above, nothing to compare
+	if cs.reconfigures() {
+		r.Hit("cfg:stream=" + s.name())
+		if !cs.cfgNeutral() {
+			r.Hit("cfg:property-only")
+			return true
+		}
 	}
 
 	// ---- 1b. a peer that does not read: the only things that may happen when a reply does not fit are
@@ -835,6 +851,10 @@ func main() {
 		os.Exit(3)
 	}
 	h := &Harness{r: r, e: e, rn: rn, o: o, cwd: cwd}
+	rn.TickBudget = r.N(30, 600)
+	if r.Replay != "" {
+		rn.TickBudget = 1000
+	}
 	r.Assume = []string{
 		"stream 1 drives the real OneConnection.Run over a net.Pipe; the harness only (a) presets the protocol state on the fresh connection object for a part of the cases (the others do the version handshake, and for enc/trusted cases the xauth key exchange, through Run), (b) wakes the writing thread when Run announces its exit (network.VerifKickWriter; otherwise up to 10 ms idle wait per connection) and (c) re-initialises the connection object of a finished connection instead of allocating 16 MB per case (network.VerifRecycle: every field but the send ring); timer-driven paths of Tick (timeouts of headers / block downloads, pings) do not fire within a case's lifetime",
 		"stream 2 calls the handlers through VerifDispatch (client/network/verif_export.go), a copy of Run's switch; gen_c18 compares the two switches clause by clause (source text after renaming cmd.pl/cmd.trusted/cmd) on every run and refuses to continue on a difference; the version gate in front of the switch is NOT part of that comparison (stream 1 covers it)",
@@ -868,9 +888,17 @@ func main() {
 		h.finish("replay of one recorded case", "replay", false)
 	}
 
+	lapT := time.Now()
+	lap := func(what string) {
+		if os.Getenv("C18_TIMES") != "" {
+			fmt.Fprintf(os.Stderr, "TIME %-12s %6.1f s\n", what, time.Since(lapT).Seconds())
+		}
+		lapT = time.Now()
+	}
 	// 0. block parsing in a child process: a nil dereference in one of BuildTxList's worker goroutines
 	//    kills the whole process, no recover() reaches it - it can only be observed from outside
 	h.One(Case{Cmd: "@child", Note: "child", Child: &ChildSpec{Seed: r.Rng.Fork().U64(), Blocks: r.N(14, 120), Only: -1}})
+	lap("child")
 	// 1. corpus (edge inputs + the witnesses of the seven repaired defects)
 	for _, cs := range Corpus(e) {
 		h.One(cs)
@@ -882,6 +910,7 @@ func main() {
 	// 2. old-guard witnesses: the model with the pre-fix guards must panic / leak on them (keeps the
 	//    counterexample theorems tied to the oracle the harness uses)
 	h.oldWitnesses()
+	lap("corpus")
 	// 3. generated
 	gen := &Gen{e: e, g: r.Rng.Fork(), r: r}
 	n := r.N(12000, 100000)
@@ -896,18 +925,32 @@ func main() {
 			h.One(gen.Wire())
 		}
 	}
+	lap("generated")
+	// 3b. block / cmpctblock / blocktxn for blocks that carry the Trusted mark (operator's LastTrustedBlock,
+	//     authorised peer, or left over from an earlier case), counts in disagreement with the data
+	h.trustedBlocks(gen, r.N(220, 2500))
+	lap("trusted")
+	// 3c. configuration histories: the operator changes a run-time switch while the peer is connected,
+	//     Tick runs in between, then any message
+	h.cfgHistories(gen, r.N(8, 60))
+	lap("cfg")
 	// 4. boundary lengths: every command at 0..limit edges
 	h.boundaries(gen)
+	lap("boundaries")
 	// 5. addr / getaddr against a peers database that is at its record limit
 	h.fullDB(gen, r.N(400, 6000))
 	// 5b. a peer that sends requests but does not read the replies (send buffer driven to its limit)
+	lap("fulldb")
 	h.slowReaders(gen, r.N(500, 6000), r.N(3, 12))
+	lap("slow")
 	// 6. a connection's thread against inv routing and statistics, in a child process
 	for i := 0; i < r.N(1, 3); i++ {
 		h.One(Case{Cmd: "@conc", Note: "conc", Conc: &ConcSpec{Seed: gen.g.U64(), Rounds: r.N(200000, 1500000)}})
 	}
+	lap("conc")
 	// 7. library entry points
 	libFuzz(r, e, r.Rng.Fork(), r.N(4000, 80000))
+	lap("lib")
 
 	r.Extra["spare_headers_used"] = e.SpareIdx
 	h.finish(ruleText, explText, false)
